@@ -344,12 +344,10 @@ func replyFor(g *genCtx, sp sessParams, class byte, fn, cmdNo byte, prefix []byt
 		r = b.seal(rsp(fn, cmdNo, 0xC0, nil))
 	case 'T':
 		r = b.seal(rsp(fn, cmdNo, 0xC3, body))
-	case 'X': // authentic reply to another command
-		if g.rng.Intn(2) == 0 {
-			r = b.seal(rsp(fn^2, cmdNo, 0, []byte{0x99, 0x98}))
-		} else {
-			r = b.seal(rsp(fn, cmdNo+1, 0, []byte{0x99, 0x98}))
-		}
+	case 'X': // authentic reply to another command (any completion code, with or without a body)
+		fn2, cmd2, prefix2, cc2, data2 := strayReply(g, fn, cmdNo, prefix)
+		c := cc2
+		r = b.seal(specMessage(0x81, fn2|1, 0, 0x20, 1, 0, cmd2, &c, prefix2, data2))
 	case 'U': // forged: no AuthCode, no encryption, attacker's session ID
 		r = b.sealWith(rsp(fn, cmdNo, 0, []byte{0x66}), 0xDEADBEEF, 1, false, false, nil, nil)
 	case 'V': // authenticated flag cleared, plaintext, our session ID
@@ -399,6 +397,45 @@ func replyFor(g *genCtx, sp sessParams, class byte, fn, cmdNo byte, prefix []byt
 		r = b.seal(m)
 	}
 	return "R:" + hx(r)
+}
+
+// strayReply picks a response that belongs to ANOTHER operation than (fn, cmdNo, prefix): another NetFn, another command
+// number, or - for group-extension / OEM NetFns - the same NetFn and command under another defining body / enterprise
+// number; with any completion code (normal, temporary, error) and with or without data
+func strayReply(g *genCtx, fn, cmdNo byte, prefix []byte) (fn2, cmd2 byte, prefix2 []byte, cc byte, data []byte) {
+	fn2, cmd2, prefix2 = fn, cmdNo, append([]byte(nil), prefix...)
+	k := g.rng.Intn(3)
+	if k == 2 && len(prefix) == 0 {
+		k = g.rng.Intn(2)
+	}
+	switch k {
+	case 0:
+		fn2 = fn ^ 2
+		if (fn2 == 0x2c || fn2 == 0x2e) != (fn == 0x2c || fn == 0x2e) || fn2 == 0x2c || fn2 == 0x2e {
+			// keep the message well-formed: a group / OEM NetFn needs its prefix
+			switch fn2 {
+			case 0x2c:
+				prefix2 = []byte{0xdc}
+			case 0x2e:
+				prefix2 = []byte{1, 2, 3}
+			default:
+				prefix2 = nil
+			}
+		}
+	case 1:
+		if g.rng.Intn(2) == 0 {
+			cmd2 = cmdNo ^ (1 << uint(g.rng.Intn(8))) // near miss: one bit of the command number
+		} else {
+			cmd2 = cmdNo + 1 + byte(g.rng.Intn(254))
+		}
+	case 2:
+		prefix2[g.rng.Intn(len(prefix2))] ^= 1 << uint(g.rng.Intn(8))
+	}
+	cc = []byte{0, 0, 0, 0xC0, 0xC3, 0xC1, 0xCC, 0xD4, 0xFF, byte(g.rng.Intn(256))}[g.rng.Intn(10)]
+	if g.rng.Intn(3) != 0 {
+		data = []byte{0x99, 0x98}
+	}
+	return
 }
 
 func genSend(g *genCtx) {
